@@ -685,6 +685,23 @@ fn n_eps(req: &Req) -> usize {
 }
 
 /// entry points whose wrapper changes the meaning of the operation are not compared for it
+/// the entry point goes through WithoutDealloc / WithoutShrink (which legitimately behave differently once
+/// requests fail and temporaries are given back)
+fn is_wrapper(req: &Req, ep: usize) -> bool {
+    match req {
+        Req::Raw(..) => matches!(ep % 10, 5 | 6 | 9),
+        Req::TypedLayout(_) => ep % 8 == 6,
+        Req::VecSession(..) => ep % 4 == 2,
+        Req::MutVecSession(..) => matches!(ep % 5, 2 | 3),
+        Req::CheckpointReset(_) => matches!(ep % 7, 4 | 5),
+        Req::TryWith(..) | Req::RawSession(..) => false,
+        // (the trait-object `reserve` needs one contiguous block where the typed one may count the chunks it already
+        // has: with a refusing base allocator the two legitimately differ, so it is left out like the wrappers)
+        Req::Reserve(_) => matches!(ep % 16, 5 | 6 | 7 | 13 | 14 | 15),
+        _ => matches!(ep % 16, 5 | 6 | 13 | 14),
+    }
+}
+
 fn comparable(req: &Req, ep: usize) -> bool {
     match req {
         // temporary collections shrink at the end: WithoutShrink changes the resulting byte count
@@ -693,7 +710,7 @@ fn comparable(req: &Req, ep: usize) -> bool {
     }
 }
 
-fn run_history<A, S>(rep: &mut Report, hist: u64, seed: u64, ops: usize)
+fn run_history<A, S>(rep: &mut Report, hist: u64, seed: u64, ops: usize, refuse: bool)
 where
     A: MonHandle + BaseAllocator<S::GuaranteedAllocated>,
     S: BumpAllocatorSettings,
@@ -715,8 +732,21 @@ where
     let (Some(mut a), Some(mut b)) = (mk(seed), mk(seed)) else { return };
     let mut trace: Vec<String> = Vec::new();
     let mut hit = 0u64;
+    // `--refuse`: from some operation on the base allocator refuses everything (C07 through every entry point)
+    let refuse_at = if refuse { Some(rng.range(3, ops.max(4))) } else { None };
     for opi in 0..ops {
-        let rem = a.bump.stats().current_chunk().map_or(0, |c| c.remaining());
+        if Some(opi) == refuse_at {
+            for side in [&a, &b] {
+                let mut m = side.mon.borrow_mut();
+                let k = m.alloc_calls;
+                m.fail.fail_from = Some(k);
+            }
+            trace.push("base allocator refuses from here on".into());
+            rep.count("state:base_refuses_everything");
+        }
+        // requests are sized relative to what is left in the current chunk; capped, so that chunk sizes stop doubling
+        // at a few hundred KiB (the instrumented base allocator fills and verifies every byte it hands out)
+        let rem = a.bump.stats().current_chunk().map_or(0, |c| c.remaining()).min(1 << 16);
         // occasionally both sides enter the same structural state
         match rng.below(14) {
             0 => {
@@ -752,11 +782,13 @@ where
         let (e1, e2) = loop {
             let e1 = rng.below(n);
             let e2 = rng.below(n);
-            if e1 != e2 && comparable(&req, e1) && comparable(&req, e2) && same_group(&req, e1, e2) {
+            let refusing = refuse_at.is_some_and(|k| opi >= k);
+            if e1 != e2 && comparable(&req, e1) && comparable(&req, e2) && same_group(&req, e1, e2) && !(refusing && (is_wrapper(&req, e1) || is_wrapper(&req, e2))) {
                 break (e1, e2);
             }
         };
         rep.ops += 1;
+        let before_a = a.bump.stats().allocated();
         vh::monalloc::set_current(Some(a.mon.clone()));
         let (oa, na) = apply(&mut a, &req, e1);
         vh::monalloc::set_current(Some(b.mon.clone()));
@@ -775,6 +807,26 @@ where
         let kind = format!("{req:?}");
         let kind = kind.split(|c: char| c == '(' || c == ' ').next().unwrap_or("?").to_string();
         let mut bad = None;
+        if refuse_at.is_some_and(|k| opi >= k) {
+            // C07 through this entry point: a try_ method reports the refusal as an error, a failed request leaves the
+            // allocated byte count where it was (wrappers that disable deallocation and multi-step requests excepted)
+            for (o, n) in [(&oa, &na), (&ob, &nb)] {
+                let is_try = n.contains("::try_") || n.starts_with("try_") || n.starts_with("try ");
+                if let Out::Panic(p) = o {
+                    if is_try && p.contains("AllocError") {
+                        rep.viol(Viol { prop: "C07", sig: format!("try_method_panicked:{kind}"), detail: format!("{desc} :: [{n}] unwound with {p}"), config: cfg.clone(), hist, op: opi as u64, opdesc: desc.clone() });
+                    }
+                    rep.count("refusal_reported_by_unwinding");
+                } else if let Out::Err = o {
+                    rep.count("refusal_reported_as_error");
+                }
+            }
+            // (whether a failed request gives its partial work back is not promised: a failed alloc_fmt may leave the
+            // bytes of its temporary buffer allocated; observed, counted, not judged)
+            if matches!(oa, Out::Err | Out::Panic(_)) && ta.0 != before_a {
+                rep.count("failed_request_left_bytes_allocated");
+            }
+        }
         // panic-vs-try: a panicking method and its try twin differ only in how they report failure
         let norm = |o: &Out| match o {
             Out::Panic(_) => Out::Err,
@@ -803,7 +855,10 @@ where
         rep.count(&format!("req:{kind}"));
         rep.count(&format!("pair:{}", if na.contains("dyn") || nb.contains("dyn") { "dyn" } else if na.contains("try") != nb.contains("try") { "try_vs_panicking" } else if na.contains("Trait") != nb.contains("Trait") { "inherent_vs_trait" } else { "other" }));
         if let Some((sig, d)) = bad {
-            rep.viol(Viol { prop: "C17", sig, detail: format!("{desc} :: {d}"), config: cfg.clone(), hist, op: opi as u64, opdesc: desc });
+            // once the base allocator refuses, a divergence between two plain entry points means one of them mishandles the failure
+            let refusing = refuse_at.is_some_and(|k| opi >= k);
+            let (prop, sig) = if refusing { ("C07", format!("entry_points_disagree_under_refusal:{sig}")) } else { ("C17", sig) };
+            rep.viol(Viol { prop, sig, detail: format!("{desc} :: {d}"), config: cfg.clone(), hist, op: opi as u64, opdesc: desc });
             break;
         }
     }
@@ -833,7 +888,8 @@ fn main() {
     let ops = a.usize("ops", 120);
     let only = a.has("only-hist").then(|| a.u64("only-hist", 0));
     let mut rep = Report::new(a.flag("wal"));
-    type R = fn(&mut Report, u64, u64, usize);
+    type R = fn(&mut Report, u64, u64, usize, bool);
+    let refuse = a.flag("refuse");
     let runs: [R; 6] = [
         run_history::<MRc, BumpSettings<1, true>>,
         run_history::<MRc, BumpSettings<1, false>>,
@@ -849,7 +905,7 @@ fn main() {
                 continue;
             }
         }
-        runs[(h % 6) as usize](&mut rep, h, mix(&[seed, h, 0x17]), ops);
+        runs[(h % 6) as usize](&mut rep, h, mix(&[seed, h, 0x17]), ops, refuse);
     }
     rep.emit(&format!(",\"bin\":\"lockstep\",\"seed\":{seed},\"shard\":{shard}"));
 }
